@@ -1002,6 +1002,55 @@ FOREIGN = ["x0", "z", "hadamard", "cx", "x-type1", "bell", "ghz", "identity", "x
            "xx-parity", "zzparity-", "-xxparity", "z-z-parity", "x-0", "bell-", "z-2", "x-type-1", "xtype1", "xxparity-type-1", "get_povm_xxparity"]
 
 
+def product_names(rng, fq, ft, specials, n_each):
+    """names SHAPED like catalogue products, built from listed factors, that lie beyond the catalogued systems or are malformed:
+    one / two factors more than the largest catalogued system of the kind (4, 5 qubit factors; 3, 4 qutrit factors), mixed qubit / qutrit
+    factors, special (non-product) names with factors attached, repeated factors, empty factors, leading / trailing separators.
+    fq / ft: listed one-qubit / one-qutrit factor names, specials: listed names that are not products of those.  -> [(name, kind)]"""
+    out = []
+    def pick(pool, k):
+        return [rng.choice(pool) for _ in range(k)]
+    def add(parts, kind):
+        out.append(("_".join(parts), kind))
+    for rnd in range(n_each + 1):
+        det = rnd == 0                                   # first round deterministic: first factor repeated
+        if fq:
+            add([fq[0]] * 4 if det else pick(fq, 4), "4-qubit-factors"); add([fq[-1]] * 5 if det else pick(fq, 5), "5-qubit-factors")
+        if ft:
+            add([ft[0]] * 3 if det else pick(ft, 3), "3-qutrit-factors"); add([ft[-1]] * 4 if det else pick(ft, 4), "4-qutrit-factors")
+        if fq and ft:
+            for pat in ("qt", "tq", "qqt", "tqt", "qtt", "tqq"):
+                add([(fq[0] if det else rng.choice(fq)) if ch == "q" else (ft[0] if det else rng.choice(ft)) for ch in pat], "mixed-qubit-qutrit")
+        for sp in (specials[:2] if det else pick(specials, 2) if specials else []):
+            f1 = (fq or ft)[0] if det else rng.choice(fq + ft)
+            add([sp, f1], "special-with-factor"); add([f1, sp], "special-with-factor"); add([sp, sp], "special-with-factor")
+        pool = fq + ft
+        if pool:
+            a, b = (pool[0], pool[-1]) if det else pick(pool, 2)
+            for nm in (a + "__" + b, "_" + a, a + "_", "_" + a + "_" + b, a + "_" + b + "_", a + "___" + a, "_", "__", a + "_ _" + b):
+                out.append((nm, "malformed-separator"))
+    seen = set(); res = []
+    for nm, kind in out:
+        if nm not in seen:
+            seen.add(nm); res.append((nm, kind))
+    return res
+
+
+def product_factor_pools():
+    """family -> (one-qubit factors, one-qutrit factors, special names) read from the catalogues"""
+    q = Q()
+    st1q = q.st.get_state_names_1qubit(); st1t = [n for n in q.st.get_state_names_1qutrit() if "_" not in n]
+    stsp = [n for n in q.st.get_state_names() if "_" in n and not all(p in st1q or p in st1t for p in n.split("_"))] + ["ghz", "werner"]
+    pv1q = q.pt.get_povm_names_1qubit(); pv1t = q.pt.get_povm_names_1qutrit(); pvsp = [n for n in q.pt.get_povm_names_2qubit() if "_" not in n]
+    mp = q.mt.get_mprocess_names_type1() + q.mt.get_mprocess_names_type2()
+    mp1q = [n for n in mp if MPSYS.get(n.split("-")[0]) == "1qubit"]; mp1t = [n for n in mp if MPSYS.get(n.split("-")[0]) == "1qutrit"]
+    mpsp = [n for n in mp if MPSYS.get(n.split("-")[0]) == "2qubit"]
+    g1q = q.gt.get_gate_names_1qubit(); g1t = q.gt.get_gate_names_1qutrit()
+    gsp = q.gt.get_gate_names_2qubit() + q.gt.get_gate_names_3qubit() + q.gt.get_gate_names_2qutrit_single_base_matrix()[:6] + ["identity"]
+    en = q.et.get_state_ensemble_names()
+    return {"state": (st1q, st1t, stsp), "povm": (pv1q, pv1t, pvsp), "mprocess": (mp1q, mp1t, mpsp), "gate": (g1q, g1t, gsp), "state_ensemble": (en, [], [])}
+
+
 def families(quick=None):
     """family -> (seed names, validity predicate, probes: (form label, callable(name)))"""
     if quick is not None:
@@ -1017,14 +1066,28 @@ def families(quick=None):
     c1, c2, c3, t1 = csys("1qubit"), csys("2qubit"), csys("3qubit"), csys("1qutrit")
     allsys = [c1, c2, c3, t1]
     fam = {}
+    def _validator(n):
+        if q.st.is_valid_state_name(n):
+            return True                      # "yields": the validator accepts a name that is in no list
+        raise ValueError(n)
+    allsys5 = allsys + [csys("2qutrit")]
     fam["state"] = (sorted(st_all, key=len)[:12] + ["bell_phi_plus", "z0_z1", "01x0_12y1"], lambda n: n in st_all,
-                    [("pure_state_vector", lambda n: q.qt.generate_state_object(n, "pure_state_vector")), ("density_mat", lambda n: q.qt.generate_state_object(n, "density_mat"))] +
-                    [("density_matrix_vector", lambda n, c=c: q.qt.generate_state_object(n, "density_matrix_vector", c)) for c in allsys] +
-                    [("state", lambda n, c=c: q.qt.generate_qoperation("state", n, c)) for c in allsys])
+                    [("is_valid_state_name", _validator),
+                     ("pure_state_vector", lambda n: q.qt.generate_state_object(n, "pure_state_vector")), ("density_mat", lambda n: q.qt.generate_state_object(n, "density_mat")),
+                     ("state_typical.pure_state_vector", lambda n: q.st.generate_state_pure_state_vector_from_name(n)),
+                     ("state_typical.density_mat", lambda n: q.st.generate_state_density_mat_from_name(n)),
+                     ("state_typical.object_from_name", lambda n: q.st.generate_state_object_from_state_name_object_name(n, "pure_state_vector"))] +
+                    [("density_matrix_vector", lambda n, c=c: q.qt.generate_state_object(n, "density_matrix_vector", c)) for c in allsys5] +
+                    [("state_typical.density_matrix_vector", lambda n, c=c: q.st.generate_state_density_matrix_vector_from_name(c.basis(), n)) for c in (c3, allsys5[-1])] +
+                    [("state", lambda n, c=c: q.qt.generate_qoperation("state", n, c)) for c in allsys5] +
+                    [("state_typical.state", lambda n, c=c: q.st.generate_state_from_name(c, n)) for c in (c1, c3, allsys5[-1])] +
+                    [("generate_qoperation_object", lambda n, c=c: q.qt.generate_qoperation_object("state", n, "state", c_sys=c)) for c in (c2, allsys5[-1])] +
+                    [("generate_qoperation_depolarized", lambda n, c=c: q.qt.generate_qoperation_depolarized("state", n, c, 0.1)) for c in (c1, t1)])
     fam["povm"] = (sorted(pv_single) + ["x_z", "z3_z2"], lambda n: all(p in pv_single for p in n.split("_")),
                    [("pure_state_vectors", lambda n: q.qt.generate_povm_object(n, "pure_state_vectors")), ("matrices", lambda n: q.qt.generate_povm_object(n, "matrices"))] +
                    [("vectors", lambda n, c=c: q.pt.generate_povm_object_from_povm_name_object_name(n, "vectors", basis=c.basis())) for c in allsys] +
-                   [("povm", lambda n, c=c: q.qt.generate_qoperation("povm", n, c)) for c in allsys])
+                   [("povm", lambda n, c=c: q.qt.generate_qoperation("povm", n, c)) for c in allsys] +
+                   [("generate_qoperation_object", lambda n, c=c: q.qt.generate_qoperation_object("povm", n, "povm", c_sys=c)) for c in (c2,)])
     # (every gate-name lookup in quara rebuilds the 39k-entry 2-qutrit list, ~13 ms: keep the number of probes moderate)
     gl = ["identity"] + q.gt.get_gate_names_1qubit() + q.gt.get_gate_names_2qubit() + q.gt.get_gate_names_3qubit() + q.gt.get_gate_names_1qutrit()[:4] + ["i01x90", "01x12y90_i02z180"]
     gprobes = []
@@ -1044,7 +1107,8 @@ def families(quick=None):
                        [("hss", lambda n, c=c: q.qt.generate_mprocess_object(n, "hss", c)) for c in allsys] +
                        [("mprocess", lambda n, c=c: q.qt.generate_qoperation("mprocess", n, c)) for c in allsys])
     fam["state_ensemble"] = (sorted(en_all), lambda n: n in en_all,
-                             [("state_ensemble", lambda n: q.qt.generate_qoperation_object("state_ensemble", n, "state_ensemble", c_sys=c1))])
+                             [("state_ensemble", lambda n, c=c: q.qt.generate_qoperation_object("state_ensemble", n, "state_ensemble", c_sys=c)) for c in (c1, c2)] +
+                             [("elements", lambda n: q.et.generate_state_ensemble_elements_from_name(n, c1)), ("from_name", lambda n: q.et.generate_state_ensemble_from_name(c1, n))])
     _cache["families"] = fam
     return fam
 
@@ -1058,18 +1122,99 @@ def chk_unknown(ctx, case):
     fam = families(case.get("quick"))[case["family"]]; name = case["name"]
     _, valid, probes = fam
     if valid(name):
+        if case.get("product") and case["family"] in ("povm", "mprocess") and name not in _listed(case["family"]):
+            return chk_offlist_product(ctx, case)
         ctx.count("unknown_names", key=(case["family"], name), nontrivial=False, label="skipped-valid"); return
+    yields = []
     for k, (form, f) in enumerate(probes):
-        ctx.count("unknown_names", key=(case["family"], name, form, k), nontrivial=True, label=case["family"])
+        ctx.count("unknown_names", key=(case["family"], name, form, k), nontrivial=True, label=case["family"] + ("-product" if case.get("product") else ""))
         try:
             obj = f(name)
         except EXC:
             continue
         except Exception:
             continue
-        V(ctx, "unknown_names", SITES[case["family"]], "unlisted-name-accepted" if case.get("foreign") else "unknown-name-yields-object",
-          "%s name %r is in no catalogue list but object form %r yields %s" % (case["family"], name, form, type(obj).__name__), case)
-        break
+        yields.append("%s -> %s%s" % (form, type(obj).__name__, (" of shape %s" % (np.shape(obj),)) if isinstance(obj, np.ndarray) else ""))
+    if yields:
+        sig = "unlisted-name-accepted" if case.get("foreign") else "offcatalogue-product-accepted:" + case["product"] if case.get("product") else "unknown-name-yields-object"
+        site = "state_typical.is_valid_state_name" if yields[0].startswith("is_valid_state_name") else SITES[case["family"]]
+        V(ctx, "unknown_names", site, sig,
+          "%s name %r is in no catalogue list but %d of %d object forms / dispatchers yield an object instead of raising: %s" % (case["family"], name, len(yields), len(probes), "; ".join(yields[:6])), case)
+
+
+def _listed(family):
+    q = Q()
+    if ("listed", family) not in _cache:
+        _cache[("listed", family)] = {"state": lambda: set(q.st.get_state_names()), "povm": lambda: set(q.pt.get_povm_names()),
+                                      "mprocess": lambda: set(q.mt.get_mprocess_names_type1() + q.mt.get_mprocess_names_type2()),
+                                      "gate": lambda: set(q.gt.get_gate_names()), "state_ensemble": lambda: set(q.et.get_state_ensemble_names())}[family]()
+    return _cache[("listed", family)]
+
+
+def chk_offlist_product(ctx, case):
+    """POVM / measurement-process names are COMPOSITIONAL in quara: the generators split at '_' and accept every product of listed single
+    names (upstream uses e.g. 'x-type1_z-type1', which is in no list).  For a well-formed product that is in no get_*_names* list the check
+    therefore demands: whatever is yielded is exactly the Kronecker product (itertools.product order) of the factor TABLES - never 'some object' -
+    and every form that is bound to a composite system raises when the dimensions do not match (and denotes the same operators when they do)."""
+    q = Q(); fam = case["family"]; name = case["name"]; parts = name.split("_"); m = ctx.get_model()
+    site = SITES[fam]; sig = "offcatalogue-product-differs:" + case["product"]
+    ctx.count("unknown_names", key=(fam, name, "product"), nontrivial=True, label=fam + "-offlist-product")
+    if fam == "povm":
+        tabs = [tbl_povm(ctx, [P1[p]]) for p in parts]
+        want = tabs[0]
+        for t in tabs[1:]:
+            want = [np.kron(a, b) for a, b in itertools.product(want, t)]
+        try:
+            got = [np.asarray(x) for x in q.qt.generate_povm_object(name, "matrices")]
+        except EXC:
+            got = None
+        d = want[0].shape[0]
+        if got is not None and (len(got) != len(want) or max(mx(a, b) for a, b in zip(got, want)) > TTOL):
+            V(ctx, "unknown_names", site, sig, "POVM name %r (product of listed factors, in no list) yields matrices that are not the product of the factor tables" % name, case)
+        if all(p in q.pt.get_povm_names_rank1() for p in parts):
+            try:
+                pv = q.qt.generate_povm_object(name, "pure_state_vectors")
+                if len(pv) != len(want) or max(mx(np.outer(v, np.conj(v)), w) for v, w in zip(pv, want)) > TTOL:
+                    V(ctx, "unknown_names", site, sig, "POVM name %r: pure_state_vectors are not the product of the factor tables" % name, case)
+            except EXC:
+                pass
+        for sysname in ("1qubit", "2qubit", "3qubit", "1qutrit", "2qutrit"):
+            c = csys(sysname)
+            try:
+                vs = q.pt.generate_povm_object_from_povm_name_object_name(name, "vectors", basis=c.basis())
+            except Exception:
+                continue
+            if c.dim != d or max(mx(np_vec(basis_of(c), w), v) for w, v in zip(want, vs)) > TOL:
+                V(ctx, "unknown_names", site, "offcatalogue-product-wrong-system:" + case["product"],
+                  "POVM name %r (dimension %d) yields vectors on the %s system (dimension %d)%s" % (name, d, sysname, c.dim, "" if c.dim != d else " that do not denote the product"), case)
+    else:
+        tabs = []
+        for p in parts:
+            t = tbl_mproc(ctx, MP[p]); tabs.append([np.array(out) for out in t])
+        want = tabs[0]
+        for t in tabs[1:]:
+            want = [np.kron(a, b) for a, b in itertools.product(want, t)]
+        d = want[0].shape[-1]
+        try:
+            got = [np.asarray(x) for x in q.qt.generate_mprocess_object(name, "set_kraus_matrices")]
+        except EXC:
+            got = None
+        if got is not None and (len(got) != len(want) or any(a.shape != b.shape for a, b in zip(got, want)) or max(mx(a, b) for a, b in zip(got, want)) > TTOL):
+            V(ctx, "unknown_names", site, sig, "mprocess name %r (product of listed factors, in no list) yields Kraus sets that are not the product of the factor tables" % name, case)
+        for sysname in ("1qubit", "2qubit", "3qubit", "1qutrit", "2qutrit") if d <= 16 else ():   # (quara builds the d^2 x d^2 HS matrices of every outcome first)
+            c = csys(sysname)
+            if c.dim == d and d > 4:
+                continue                                  # (matching 8- / 9-dimensional products are listed-system cases of the mprocess sub-check)
+            try:
+                hss = q.qt.generate_mprocess_object(name, "hss", c)
+            except Exception:
+                continue
+            bad = c.dim != d or len(hss) != len(want)
+            if not bad:
+                bad = max(mx(np_hs_from_kraus(basis_of(c), list(w)).real, np.asarray(h)) for w, h in zip(want, hss)) > TOL
+            if bad:
+                V(ctx, "unknown_names", site, "offcatalogue-product-wrong-system:" + case["product"],
+                  "mprocess name %r (dimension %d) yields HS matrices on the %s system (dimension %d)%s" % (name, d, sysname, c.dim, "" if c.dim != d else " that do not denote the product"), case)
 
 
 def chk_object_name(ctx, case):
@@ -1089,7 +1234,18 @@ def chk_object_name(ctx, case):
     V(ctx, "unknown_names", "qoperation_typical.generate_%s_object" % case["family"], "unknown-object-name-yields-object", "unknown object_name %r yields %s" % (bad, type(obj).__name__), case)
 
 
+def chk_validator(ctx, case):
+    """state_typical.is_valid_state_name is the gate keeper of every state generator: it must be True exactly on get_state_names()"""
+    q = Q(); listed = q.st.get_state_names()
+    for n in listed:
+        ctx.count("unknown_names", key=("validator", n), nontrivial=True, label="validator-listed")
+        if not q.st.is_valid_state_name(n):
+            V(ctx, "unknown_names", "state_typical.is_valid_state_name", "listed-name-rejected", "is_valid_state_name(%r) is False for a listed name" % n, {"family": "state", "name": n, "validator": True})
+
+
 def chk_unknown_any(ctx, case):
+    if case.get("validator"):
+        return chk_validator(ctx, case)
     return chk_object_name(ctx, case) if "object_name" in case else chk_unknown(ctx, case)
 
 
@@ -1105,10 +1261,21 @@ def sub_unknown(ctx):
             names = sorted(ctx.rng.sample(names, cap))
         cases += [{"family": f, "name": n, "quick": ctx.quick} for n in names]
         cases += [{"family": f, "name": n, "foreign": True, "quick": ctx.quick} for n in FOREIGN]
+    # well-formed / malformed PRODUCT names beyond the catalogued systems, for every family
+    pools = product_factor_pools(); nprod = {}
+    for f, (fq, ft, sp) in pools.items():
+        pn = product_names(ctx.rng, fq, ft, sp, {"gate": ctx.n(0, 2), "state": ctx.n(3, 12)}.get(f, ctx.n(1, 6)))
+        pn = [(n, k) for n, k in pn if n not in _listed(f)]
+        nprod[f] = len(pn)
+        cases += [{"family": f, "name": n, "product": k, "quick": ctx.quick} for n, k in pn]
+    cases.append({"validator": True})
     for f in ("state", "povm", "gate", "mprocess", "effective_lindbladian", "state_ensemble", "mode"):
         for bad in ("", "stat", "State", "gate_", "unitary", "object"):
             cases.append({"family": f, "object_name": bad})
     ctx.sample("unknown_names", cases[3]); ctx.run_cases("unknown_names", FNS["unknown_names"], cases)
+    ctx.note("unknown_names: product-shaped names beyond the catalogued systems (4 / 5 qubit factors, 3 / 4 qutrit factors, mixed qubit-qutrit, special names with factors, "
+             "empty factors, leading / trailing separators) per family: %s; closed families (state, gate, state_ensemble): must raise in every object form and dispatcher; "
+             "compositional families (povm, mprocess): malformed must raise, well-formed must equal the product of the factor tables and raise on a system of another dimension" % nprod)
 
 
 # ================================================================== 9. 2-qutrit gates (about 39k names): pool of workers
